@@ -330,6 +330,12 @@ class RawPeer:
             elif k == "close":
                 self.pc += 1
                 self.do_close(polite=True)
+            elif k == "close_notify":
+                # TLS goodbye only: the TCP connection stays open and silent
+                self.pc += 1
+                if self.eng:
+                    self.eng.close_notify()
+                    self._flush_engine()
             elif k == "fin":
                 self.pc += 1
                 self.do_close(polite=False)
